@@ -234,7 +234,7 @@ func run(c *Case, shared *zerolog.Logger, out *rw) string {
 	if len(out.last) == 0 {
 		return "no event written"
 	}
-	n, err := jsonref.ValidateLine(out.last)
+	n, err := jsonref.ValidateLine(zerolog.VerifDecodeIfBinaryToBytes(out.last)) // JSON in either build
 	if err != nil {
 		return "unparseable event: " + err.Error()
 	}
@@ -322,7 +322,7 @@ func TestSplitLines(t *testing.T) {
 	l := zerolog.New(out)
 	lc := l.With().Caller().Logger()
 	check := func(name string, want string) {
-		n, err := jsonref.ValidateLine(out.last)
+		n, err := jsonref.ValidateLine(zerolog.VerifDecodeIfBinaryToBytes(out.last)) // JSON in either build
 		if err != nil {
 			t.Fatal(err)
 		}
@@ -457,7 +457,7 @@ func TestWriteFromPackageNamedLog(t *testing.T) {
 			}
 			applog.WriteWrapped(&l, depth)
 			var evt map[string]interface{}
-			if err := json.Unmarshal(out.Bytes(), &evt); err != nil {
+			if err := json.Unmarshal(zerolog.VerifDecodeIfBinaryToBytes(out.Bytes()), &evt); err != nil {
 				t.Fatalf("HARNESS-ERROR: %v: %q", err, out.Bytes())
 			}
 			n++
